@@ -336,6 +336,43 @@ Section Builder.
       let '(r, c') := run_finish c fin in
       mkOutcome rs (Some (mk_res r c')) (c_inner c') (c_cnt c') (c_sum c')
     else mkOutcome rs None (c_inner c) (c_cnt c) (c_sum c).
+
+  (* A caller that IGNORES the error of a failed call and keeps calling (harness family `cont`).
+     `calls` = the constructor's chunks followed by those of every add/insert. When the constructor
+     fails there is no builder to go on with. A failed write inside add/insert sets
+     `Builder::io_failed` (src/raw/build.rs); from then on add, insert (hence the extend calls) and
+     into_inner return Err(Io(Other)) from `check_io_failed` before they look at the key or touch
+     the writer, so nothing is written after the failed call. *)
+  Fixpoint run_calls_cont (failed : bool) (c : cw W) (calls : list (list (list N))) : list callres * cw W * bool :=
+    match calls with
+    | [] => ([], c, failed)
+    | ca :: r =>
+      if failed then
+        let '(rs, c'', f) := run_calls_cont true c r in (mk_res (IoErr IoOther) c :: rs, c'', f)
+      else
+        match cw_write_chunks c ca with
+        | (IoOk _, c') =>
+          let '(rs, c'', f) := run_calls_cont false c' r in (mk_res (IoOk tt) c' :: rs, c'', f)
+        | (e, c') =>
+          let '(rs, c'', f) := run_calls_cont true c' r in (mk_res e c' :: rs, c'', f)
+        end
+    end.
+
+  Definition run_session_cont (st0 : W) (calls : list (list (list N))) (fin : list (list N)) : outcome W :=
+    match calls with
+    | [] => run_session st0 calls fin
+    | cnew :: rest =>
+      match cw_write_chunks (mkCw st0 0 0) cnew with
+      | (IoOk _, c0) =>
+        let '(rs, c, failed) := run_calls_cont false c0 rest in
+        if failed then
+          mkOutcome (mk_res (IoOk tt) c0 :: rs) (Some (mk_res (IoErr IoOther) c)) (c_inner c) (c_cnt c) (c_sum c)
+        else
+          let '(r, c') := run_finish c fin in
+          mkOutcome (mk_res (IoOk tt) c0 :: rs) (Some (mk_res r c')) (c_inner c') (c_cnt c') (c_sum c')
+      | (e, c0) => mkOutcome [mk_res e c0] None (c_inner c0) (c_cnt c0) (c_sum c0)
+      end
+    end.
 End Builder.
 
 (* ---------- the two stacks the harness drives ---------- *)
@@ -372,12 +409,17 @@ Definition standin_masked (s : N) : N :=
 (* Specification for a caller that KEEPS GOING after an error (C11, last clause; family `cont` of
    the harness): write call number k of a build that needs w write calls fails once. If the fault
    is consumed (k < w) at least one byte was never accepted, so the build may not be reported
-   finished. What the builder does after an error (its unfinished-node stack is left half
-   updated) is not part of this model: only the specification is given. *)
+   finished. The model of that caller is [run_session_cont] above (the builder refuses every
+   call after a failed write). *)
 Definition cont_spec_finished (k w : nat) : bool := negb (k <? w)%nat.
 
 (* entry points of the extracted model (stand-in checksum, repaired CountingWriter) *)
+Definition run_sink_session_cont crc_update masked
+  (oracle : list resp) (fl : fresp) (prefill : list N) calls fin : outcome sink :=
+  run_session_cont crc_update masked sink_writer false s_calls (fun s => length (s_data s))
+                   (new_sink oracle fl prefill) calls fin.
 Definition x_sink_session := run_sink_session standin_update standin_masked false.
+Definition x_cont_session := run_sink_session_cont standin_update standin_masked.
 Definition x_buf_session := run_buf_session standin_update standin_masked false.
 Definition x_mem_session := mem_session standin_update standin_masked.
 Definition x_buf_drop : bufw sink -> bufw sink := bw_drop sink_writer.
